@@ -10,9 +10,11 @@ import (
 	"gitlab.com/aquachain/aquachain/aqua"
 	"gitlab.com/aquachain/aquachain/aqua/event"
 	"gitlab.com/aquachain/aquachain/aqua/filters"
+	"gitlab.com/aquachain/aquachain/aquadb"
 	"gitlab.com/aquachain/aquachain/common"
 	"gitlab.com/aquachain/aquachain/common/bitutil"
 	"gitlab.com/aquachain/aquachain/core"
+	"gitlab.com/aquachain/aquachain/core/bloombits"
 	"gitlab.com/aquachain/aquachain/core/types"
 	"gitlab.com/aquachain/aquachain/params"
 	"verif/internal/fw"
@@ -80,42 +82,98 @@ type chainRun struct {
 	// verified index sections: section -> head hash
 	verified map[uint64]common.Hash
 	state    string
+	stuck    bool // the generator cannot serve this section size: the index stays empty
+	sampled  bool
+	// how the current index progress is read and a query executed (the service
+	// leg substitutes the node's own backend and RPC)
+	sections func() uint64
+	progress func() (uint64, common.Hash) // sections and the recorded head of the last one
+	exec     func(q *query) ([]*types.Log, error)
+	db       aquadb.Database
 }
 
 func runChains(c *fw.Ctx) {
 	if err := refbloom.SelfTest(); err != nil {
 		panic(err)
 	}
-	n := c.Pick(3, 63)
+	n := c.Pick(3, 48)
 	for i := 0; i < n; i++ {
 		runChain(c, i)
 	}
 }
 
+// generatorWorks probes bloombits.Generator for a section size: after a full
+// section every one of the 2048 bit vectors must be retrievable. (On a tree
+// where Bitset bounds the bit index by the section size, sizes below 2048 fail
+// and the real indexer can never commit a section of that size.)
+var genProbe = map[uint64]error{}
+
+func generatorWorks(size uint64) error {
+	if err, ok := genProbe[size]; ok {
+		return err
+	}
+	var err error
+	g, e := bloombits.NewGenerator(uint(size))
+	if e != nil {
+		err = e
+	} else {
+		for j := uint(0); j < uint(size) && err == nil; j++ {
+			err = g.AddBloom(j, types.Bloom{})
+		}
+		for _, bit := range []uint{0, uint(size) - 1, uint(size), refbloom.Bits - 1} {
+			if bit < refbloom.Bits && err == nil {
+				_, err = g.Bitset(bit)
+			}
+		}
+	}
+	genProbe[size] = err
+	return err
+}
+
+var largeSizes = []uint64{2048, 2056, 2048, 4096}
+
 func runChain(c *fw.Ctx, i int) {
 	r := c.Rand("chain", fmt.Sprint(i))
 	cr := &chainRun{c: c, r: r, verified: map[uint64]common.Hash{}}
 	global := c.Batch*1000 + i
-	cfgi := global % len(configs)
-	sizes := sectionSizes(c)
-	size := sizes[(global/len(configs))%len(sizes)]
-	k := r.Range(1, 5)
-	if size >= 64 {
-		k = r.Range(1, 3)
-	}
-	mainLen := bloomConfirms + int(size)*k + r.Range(-1, int(size)) // head = mainLen; sections = (head+1-256)/size
-	if mainLen < bloomConfirms+int(size)-1 {
-		mainLen = bloomConfirms + int(size) - 1
+	cfgi := (c.Batch + i) % len(configs)
+	large := i%3 == 0
+	var size uint64
+	var k, mainLen int
+	if large {
+		size = largeSizes[(c.Batch+i/3)%len(largeSizes)]
+		k = 1
+		mainLen = bloomConfirms + int(size)*k - 1 + r.Range(0, 40)
+	} else {
+		sizes := sectionSizes(c)
+		size = sizes[(global/3)%len(sizes)]
+		k = r.Range(1, 5)
+		if size >= 64 {
+			k = r.Range(1, 3)
+		}
+		mainLen = bloomConfirms + int(size)*k + r.Range(-1, int(size)) // head = mainLen; sections = (head+1-256)/size
+		if mainLen < bloomConfirms+int(size)-1 {
+			mainLen = bloomConfirms + int(size) - 1
+		}
 	}
 	d := chainDesc{Chain: i, Config: configs[cfgi].name, Size: size, MainLen: mainLen,
 		Threads: r.Range(1, 3), Batch: []int{1, 2, 16}[r.Intn(3)], WaitUs: []int{0, 0, 200}[r.Intn(3)], Withhold: r.Chance(1, 3)}
-	j1 := r.Range(1, k)
-	d.Cuts = []int{r.Range(3, bloomConfirms-2), bloomConfirms - 1 + int(size)*j1 + r.Range(0, int(size)-1), mainLen}
-	if d.Cuts[1] >= mainLen {
-		d.Cuts = []int{d.Cuts[0], mainLen}
+	if large {
+		// no section yet; one block short of the first section's confirmation; all
+		d.Cuts = []int{r.Range(3, int(size)-1), bloomConfirms + int(size) - 2, mainLen}
+		d.Withhold = (c.Batch+i/3)%2 == 0
+	} else {
+		j1 := r.Range(1, k)
+		d.Cuts = []int{r.Range(3, bloomConfirms-2), bloomConfirms - 1 + int(size)*j1 + r.Range(0, int(size)-1), mainLen}
+		if d.Cuts[1] >= mainLen {
+			d.Cuts = []int{d.Cuts[0], mainLen}
+		}
 	}
 	d.Shallow = r.Range(1, 9)
-	if global%4 == 1 {
+	switch {
+	case large && (c.Batch+i/3)%2 == 1:
+		d.DeepFork = int(size) - r.Range(1, 40) // inside section 0: the reorg invalidates it
+	case !large && global%4 == 1:
 		d.DeepFork = r.Range(1, int(size)*k-1) // below the indexed boundary: invalidates sections
 	}
 	cr.d = d
@@ -123,6 +181,14 @@ func runChain(c *fw.Ctx, i int) {
 
 	ok := false
 	c.Case(id+"/build", d, func() {
+		if err := generatorWorks(size); err != nil {
+			cr.stuck = true
+			cause := "section_size_below_bloom_bit_length"
+			if size >= refbloom.Bits {
+				cause = "section_size_at_or_above_bloom_bit_length"
+			}
+			c.Violate("generator_bitset_unavailable", "Generator.Bitset", cause, fmt.Sprintf("section size %d: after a full section, %v; aqua.BloomIndexer.Commit asks for all 2048 vectors, so no section of this size can ever be indexed", size, err))
+		}
 		cr.build(configs[cfgi].cfg())
 		ok = true
 	})
@@ -160,7 +226,7 @@ func runChain(c *fw.Ctx, i int) {
 	if d.DeepFork > 0 {
 		cr.state = "deep_reorg"
 		head := int(cr.bc.CurrentBlock().NumberU64())
-		oldSections, _, _ := cr.be.indexer.Sections()
+		oldSections := cr.sections()
 		// fork from the original main chain below the indexed boundary
 		branch := cr.growBranchFromMain(d.DeepFork, head-d.DeepFork+3)
 		if !cr.importAndSettle(id, branch) {
@@ -175,31 +241,7 @@ func runChain(c *fw.Ctx, i int) {
 }
 
 func (cr *chainRun) build(cfg *params.ChainConfig) {
-	r := cr.r
-	cr.w = newWorld(r, cfg)
-	cr.led = newLedger(cr.w)
-	cr.pools = &pools{addrs: cr.w.emitters(), ghostA: cr.w.GhostAddrs, topics: cr.w.Topics, ghostT: cr.w.GhostTopics}
-	parent := cr.led.tree.Genesis
-	nonces := map[int]uint64{}
-	size := int(cr.d.Size)
-	for n := 1; n <= cr.d.MainLen; n++ {
-		s := blockSpec{Coinbase: cr.w.Coinbases[r.Intn(len(cr.w.Coinbases))]}
-		// log traffic: dense around section edges and the 256-confirmation edge, sparse elsewhere
-		edge := n%size == 0 || n%size == size-1 || n%size == 1 || n >= cr.d.MainLen-2
-		switch {
-		case edge && r.Chance(2, 3), r.Chance(1, 4):
-			s.LogTxs = r.Range(1, 3)
-		}
-		if r.Chance(1, 10) {
-			s.Noise = r.Range(1, 2)
-		}
-		if r.Chance(1, 12) {
-			s.Fast = true
-		}
-		b := cr.led.add(r, parent, nonces, s)
-		cr.main = append(cr.main, b)
-		parent = b.Block
-	}
+	cr.buildLedger(cfg)
 	db, _ := cr.w.NewDB()
 	bc, err := cr.w.NewChain(db, nil)
 	if err != nil {
@@ -212,6 +254,46 @@ func (cr *chainRun) build(cfg *params.ChainConfig) {
 		withheld: map[[2]uint64]bool{}}
 	indexer.Start(bc)
 	cr.api = filters.NewPublicFilterAPI(cr.be, false)
+	cr.sections = func() uint64 { n, _, _ := indexer.Sections(); return n }
+	cr.progress = func() (uint64, common.Hash) { n, _, h := indexer.Sections(); return n, h }
+	cr.exec = cr.runQuery
+	cr.db = db
+}
+
+// buildLedger generates the main chain (nothing of the node under test runs
+// here except the block builder).
+func (cr *chainRun) buildLedger(cfg *params.ChainConfig) {
+	r := cr.r
+	cr.w = newWorld(r, cfg)
+	cr.led = newLedger(cr.w)
+	cr.pools = &pools{addrs: cr.w.emitters(), ghostA: cr.w.GhostAddrs, topics: cr.w.Topics, ghostT: cr.w.GhostTopics}
+	parent := cr.led.tree.Genesis
+	nonces := map[int]uint64{}
+	size := int(cr.d.Size)
+	for n := 1; n <= cr.d.MainLen; n++ {
+		s := blockSpec{Coinbase: cr.w.Coinbases[r.Intn(len(cr.w.Coinbases))]}
+		// log traffic: dense around section edges and the 256-confirmation edge, sparse elsewhere
+		edge := n%size == 0 || n%size == size-1 || n%size == 1 || n >= cr.d.MainLen-2
+		den := 4
+		if size >= 2048 {
+			// long chains: sparse traffic, dense in the 8 blocks on either side of a section edge
+			den = 14
+			edge = edge || n%size < 8 || n%size >= size-8
+		}
+		switch {
+		case edge && r.Chance(2, 3), r.Chance(1, den):
+			s.LogTxs = r.Range(1, 3)
+		}
+		if r.Chance(1, 3*den) {
+			s.Noise = r.Range(1, 2)
+		}
+		if r.Chance(1, 12) {
+			s.Fast = true
+		}
+		b := cr.led.add(r, parent, nonces, s)
+		cr.main = append(cr.main, b)
+		parent = b.Block
+	}
 }
 
 func (cr *chainRun) close() {
@@ -283,12 +365,12 @@ func (cr *chainRun) importAndSettle(id string, blocks []*types.Block) bool {
 		// quiescence of the indexer
 		h := head.NumberU64()
 		var want uint64
-		if h+1 >= bloomConfirms {
+		if h+1 >= bloomConfirms && !cr.stuck {
 			want = (h + 1 - bloomConfirms) / cr.d.Size
 		}
-		deadline := time.Now().Add(90 * time.Second)
+		deadline := time.Now().Add(10 * time.Minute)
 		for {
-			n, _, sh := cr.be.indexer.Sections()
+			n, sh := cr.progress()
 			if n == want && (n == 0 || sh == cr.canonB[n*cr.d.Size-1].Hash()) {
 				ok = true
 				break
@@ -300,8 +382,12 @@ func (cr *chainRun) importAndSettle(id string, blocks []*types.Block) bool {
 			}
 			time.Sleep(3 * time.Millisecond)
 		}
-		cr.be.resetService()
+		if cr.be != nil {
+			cr.be.resetService()
+		}
 		switch {
+		case cr.stuck:
+			c.Count("state_index_stuck_generator_defect")
 		case want == 0:
 			c.Count("state_no_section_indexed")
 		default:
@@ -318,20 +404,20 @@ func (cr *chainRun) importAndSettle(id string, blocks []*types.Block) bool {
 func (cr *chainRun) checkIndex() {
 	c := cr.c
 	size := cr.d.Size
-	sections, _, _ := cr.be.indexer.Sections()
+	sections := cr.sections()
 	for s := uint64(0); s < sections; s++ {
 		last := cr.canonB[(s+1)*size-1]
 		if cr.verified[s] == last.Hash() {
 			continue
 		}
-		head := core.GetCanonicalHash(cr.be.db, (s+1)*size-1)
+		head := core.GetCanonicalHash(cr.db, (s+1)*size-1)
 		if head != last.Hash() {
 			// canonical numbering is C03's subject; here it only means the oracle has no footing
 			panic("harness: canonical hash of section end differs from the generated chain")
 		}
 		extra := 0
 		for bit := uint(0); bit < refbloom.Bits; bit++ {
-			comp, err := core.GetBloomBits(cr.be.db, bit, s, head)
+			comp, err := core.GetBloomBits(cr.db, bit, s, head)
 			if err != nil {
 				c.Violate("index_vector_missing", "BloomIndexer", "", fmt.Sprintf("section %d bit %d: %v", s, bit, err))
 				return
@@ -377,6 +463,17 @@ func (cr *chainRun) runQuery(q *query) ([]*types.Log, error) {
 			return nil, fmt.Errorf("criteria json rejected: %v", err)
 		}
 		return cr.api.GetLogs(ctx, crit)
+	case "api_installed":
+		// eth_newFilter + eth_getFilterLogs: the installed-filter form of the same query
+		crit := filters.FilterCriteria{FromBlock: big.NewInt(q.Begin), ToBlock: big.NewInt(q.End), Addresses: q.Addrs, Topics: q.Topics}
+		id, err := cr.api.NewFilter(crit)
+		if err != nil {
+			// the subscription system refuses some range shapes (begin > end, latest..number); ask directly
+			cr.c.Count("installed_filter_range_refused")
+			return cr.api.GetLogs(ctx, crit)
+		}
+		defer cr.api.UninstallFilter(id)
+		return cr.api.GetFilterLogs(ctx, id)
 	default:
 		return filters.New(cr.be, q.Begin, q.End, q.Addrs, q.Topics).Logs(ctx)
 	}
@@ -400,7 +497,7 @@ func pathOf(lo, hi, boundary int64) string {
 func (cr *chainRun) forced() []query {
 	r := cr.r
 	head := int64(len(cr.canonB) - 1)
-	sections, _, _ := cr.be.indexer.Sections()
+	sections := cr.sections()
 	boundary := int64(sections * cr.d.Size)
 	var qs []query
 	add := func(tmpl string, b, e int64, a []common.Address, t [][]common.Hash) {
@@ -408,8 +505,14 @@ func (cr *chainRun) forced() []query {
 	}
 	add("all_logs", 0, -1, nil, nil)
 	add("latest_only", -1, -1, nil, nil)
-	add("begin_after_end", head, head-int64(r.Range(1, 5)), nil, nil)
-	add("end_beyond_head", head-int64(r.Range(0, 20)), head+int64(r.Range(1, 50)), nil, nil)
+	nonneg := func(v int64) int64 {
+		if v < 0 {
+			return 0
+		}
+		return v
+	}
+	add("begin_after_end", head, nonneg(head-int64(r.Range(1, 5))), nil, nil)
+	add("end_beyond_head", nonneg(head-int64(r.Range(0, 20))), head+int64(r.Range(1, 50)), nil, nil)
 	add("begin_beyond_head", head+1, head+5, nil, nil)
 	add("open_begin_closed_end", -1, head, nil, nil)
 	// pick real logs to derive criteria from
@@ -486,13 +589,10 @@ func (cr *chainRun) forced() []query {
 			}
 		}
 	}
-	vias := []string{"filter", "api", "api_json"}
+	vias := []string{"filter", "api", "api_json", "api_installed"}
+	off := r.Intn(4)
 	for i := range qs {
-		qs[i].Via = vias[i%3]
-		if qs[i].Begin > head || qs[i].End > head {
-			// block numbers beyond the head cannot be told apart from tags in JSON; keep them numeric
-			qs[i].Via = vias[i%2]
-		}
+		qs[i].Via = vias[(i+off)%4]
 	}
 	return qs
 }
@@ -500,11 +600,11 @@ func (cr *chainRun) forced() []query {
 func (cr *chainRun) queries(id string, nRandom int, sample bool) {
 	c, r := cr.c, cr.r
 	head := int64(len(cr.canonB) - 1)
-	sections, _, _ := cr.be.indexer.Sections()
+	sections := cr.sections()
 	boundary := int64(sections * cr.d.Size)
 	qs := cr.forced()
 	for i := 0; i < nRandom; i++ {
-		q := query{Tmpl: "random", Via: []string{"filter", "filter", "api", "api_json"}[r.Intn(4)]}
+		q := query{Tmpl: "random", Via: []string{"filter", "filter", "api", "api_json", "api_installed"}[r.Intn(5)]}
 		q.Begin, q.End = rangeAround(r, head, boundary, int64(cr.d.Size))
 		q.Addrs, q.Topics = cr.pools.criteria(r)
 		qs = append(qs, q)
@@ -516,10 +616,13 @@ func (cr *chainRun) queries(id string, nRandom int, sample bool) {
 			lo, hi := resolve(q, head)
 			want := bruteForce(cr.canon, lo, hi, q)
 			path := pathOf(lo, hi, boundary)
-			got, err := cr.runQuery(q)
+			got, err := cr.exec(q)
 			op := "Filter.Logs"
-			if q.Via != "filter" {
+			switch q.Via {
+			case "api", "api_json":
 				op = "PublicFilterAPI.GetLogs"
+			case "api_installed":
+				op = "PublicFilterAPI.GetFilterLogs"
 			}
 			if err != nil {
 				if err == context.DeadlineExceeded {
@@ -555,11 +658,15 @@ func (cr *chainRun) queries(id string, nRandom int, sample bool) {
 				c.Count("range_begin_after_end")
 			}
 			cr.classify(q, lo, hi, want)
-			if sample && q.Tmpl == "random" && len(want) > 0 && path == "straddle" && c.WantSample() {
+			if sample && q.Tmpl == "random" && len(want) > 0 && path == "straddle" && c.Batch < 2 && !cr.sampled && len(q.Topics) > 0 {
+				cr.sampled = true
 				c.Sample(map[string]interface{}{"case": fmt.Sprintf("%s/%s/q%d", id, cr.state, qi), "chain": cr.d, "head": head, "sections": sections,
-					"begin": q.Begin, "end": q.End, "addresses": len(q.Addrs), "topic_positions": len(q.Topics), "via": q.Via, "logs_returned": len(got)})
+					"query": q, "logs_returned": len(got)})
 			}
 		})
+	}
+	if cr.be == nil {
+		return
 	}
 	if cr.d.Withhold {
 		cr.be.mu.Lock()
